@@ -30,18 +30,51 @@ impl Seek for Sched {
     }
 }
 
-/// `R <hex> <sched>`; sched is comma separated, `-` for the empty schedule
-pub fn op_reader(hex: &str, s: &str) -> String {
-    let Ok(b) = hex::decode(hex) else { return "BADOP".into() };
+fn parse_sched(s: &str) -> Option<Vec<Option<usize>>> {
     let mut sched = vec![];
     if s != "-" {
         for t in s.split(',') {
-            if t == "I" { sched.push(None) } else if let Ok(k) = t.parse::<usize>() { if k == 0 { return "BADOP".into() } sched.push(Some(k)) } else { return "BADOP".into() }
+            if t == "I" { sched.push(None) } else if let Ok(k) = t.parse::<usize>() { if k == 0 { return None } sched.push(Some(k)) } else { return None }
         }
     }
-    let r = Sched { data: b, pos: 0, sched, i: 0, calls: 0 };
+    Some(sched)
+}
+
+/// `R <hex> <sched> [off]`; sched is comma separated, `-` for the empty schedule; with `off` the frame stands
+/// `off` bytes into the reader (a frame inside a longer stream), the reader positioned at its first byte
+pub fn op_reader(hex: &str, s: &str, off: usize) -> String {
+    let Ok(b) = hex::decode(hex) else { return "BADOP".into() };
+    let Some(sched) = parse_sched(s) else { return "BADOP".into() };
+    let mut data: Vec<u8> = (0..off).map(|i| (0x5a ^ (i * 37)) as u8).collect();
+    data.extend_from_slice(&b);
+    let r = Sched { data, pos: off as u64, sched, i: 0, calls: 0 };
     match Frame::from_reader(r) {
         Ok(f) => crate::canon::frame(&f),
         Err(e) => crate::canon::err(&e),
+    }
+}
+
+/// `RC <prehex|-> <hex> <sched> <calls>`: the real `ReaderCrc` (through the cfg-guarded hook) on an explicit call sequence
+/// (`r<k>` = read_exact of k bytes, `s<j>` = seek back j bytes) over a scheduled reader standing after the prefix
+#[cfg(rsadsb_adsb_deku_verif)]
+pub fn op_rc(pre: &str, hex: &str, s: &str, calls: &str) -> String {
+    use adsb_deku::verif_hooks::{reader_crc_trace, Call};
+    let pre = if pre == "-" { vec![] } else { match hex::decode(pre) { Ok(p) => p, Err(_) => return "BADOP".into() } };
+    let Ok(b) = hex::decode(hex) else { return "BADOP".into() };
+    let Some(sched) = parse_sched(s) else { return "BADOP".into() };
+    let mut cs = vec![];
+    if calls != "-" {
+        for t in calls.split(',') {
+            let (k, n) = t.split_at(1.min(t.len()));
+            let Ok(n) = n.parse::<usize>() else { return "BADOP".into() };
+            match k { "r" => cs.push(Call::ReadExact(n)), "s" => cs.push(Call::SeekBack(n)), _ => return "BADOP".into() }
+        }
+    }
+    let off = pre.len();
+    let mut data = pre; data.extend_from_slice(&b);
+    let r = Sched { data, pos: off as u64, sched, i: 0, calls: 0 };
+    match reader_crc_trace(r, &cs) {
+        Some((outs, cache, pos)) => format!("RCT outs={} cache={} pos={}", outs.iter().map(hex::encode).collect::<Vec<_>>().join(";"), hex::encode(cache), pos),
+        None => "RCT FAIL".into(),
     }
 }
